@@ -647,6 +647,19 @@ def run_layout(ctx, ZConfig, model, tag):
     lay = Layout(model, world)
     lay.build()
     res.count("layouts")
+    if ctx.rng("symlink", tag).random() < 0.3:
+        # the top resources are symbolic links to files kept elsewhere: a
+        # resource is what its name says - references in it resolve beside
+        # the link, whichever way it is named (path, URL or file object)
+        real = os.path.join(world, "_kept elsewhere")
+        os.makedirs(real, exist_ok=True)
+        for n_, path in enumerate((lay.sch_paths[0], lay.cfg_paths[0])):
+            if os.path.islink(path) or not os.path.isfile(path):
+                continue
+            target = os.path.join(real, "real%d" % n_)
+            os.rename(path, target)
+            os.symlink(target, path)
+        res.count("layouts_with_symlinked_top")
     exp_tree = lay.expected_tree()
     exp_sch = lay.expected_schema()
     case = {"op": "layout", "model": model}
